@@ -43,6 +43,37 @@ def r15_checkpoint_rename(ctx, rule='R15'):
         raise AnalysisError('stream: no rename found (commit point vanished)')
     report_order(ctx, rule, fi, problems, pes, 'close < rename, rename only after the resource loop, not in except/finally',
                  'the checkpoint file can be committed (renamed to its final name) although writing did not complete')
+    # who may reach the commit: the rename, or a helper that (transitively) contains it, is called from the package step only -
+    # a call from the row writer or any other function of the module runs while rows are still being handed downstream
+    mod = fi0.module
+    funcs = [f for f in ctx.repo.functions.values() if f.module is mod and not isinstance(f.node, ast.Lambda)]
+    reach = {f.qualname for f in funcs if any(preds['RENAME'](n) for n in own_nodes(f.node))}
+    changed = True
+    while changed:
+        changed = False
+        for f in funcs:
+            if f.qualname in reach:
+                continue
+            for n in own_nodes(f.node):
+                if isinstance(n, ast.Call) and any(getattr(t, 'qualname', None) in reach for t in ctx.res.resolve_call(n)):
+                    if f is fi0:
+                        break
+                    # f calls a committing helper: f commits too, unless it is a generator handed downstream (checked below)
+                    if not f.is_generator:
+                        reach.add(f.qualname)
+                        changed = True
+                    break
+    for f in funcs:
+        if f is fi0 or f.qualname in reach:
+            continue
+        for n in own_nodes(f.node):
+            hit = preds['RENAME'](n) or (isinstance(n, ast.Call) and
+                                         any(getattr(t, 'qualname', None) in reach for t in ctx.res.resolve_call(n)))
+            if hit:
+                ctx.run.fail(rule, where(ctx.repo, n), f.qualname, 'commit reached from ' + f.qualname.split(':')[-1],
+                             'the rename to the final name can be reached from %s, which runs while rows are still being written '
+                             'and handed downstream: a failure after that point leaves a committed checkpoint' % f.qualname)
+    ctx.run.ok(rule, fi0.where, 'only %s reaches the rename (through %s)' % (fi0.qualname, sorted(reach) or 'itself'))
     return fi0
 
 
